@@ -389,6 +389,7 @@ def run(ctx):
                                                                  "constructed" if v in constructed.get(e, ()) else "NO LONGER constructed (a validation was removed)"), "")
     ctx.floor("rejections tracked", n_rej, 60)
     _loops(ctx, F, reach)
+    _validator_calls(ctx, F, reach)
     _controls(ctx, F, wrappers)
 
 
@@ -526,6 +527,8 @@ def _loop_class(f, h, body):
                 if t[0] == "switch":
                     si = f.switch_info(bb)
                     if si and si[0] == "disc" and place_local(si[1]) in fl and any(s_ not in body for s_ in f.succ(bb)):
+                        if c.name().startswith("pop") and not _worklist_is_marked(f, c, body):
+                            return None       # a worklist that grows without marking what it has expanded
                         return "iterator"
     # counter: `while v.len() < n { .. v.push(..) .. }` - the compared length grows in every iteration
     for bb in body:
@@ -563,6 +566,48 @@ def _loop_class(f, h, body):
                 if steps and f.must_pass(h, [p_ for p_ in f.pred(h) if p_ in body], steps):
                     return "counter"
     return None
+
+
+def _worklist_is_marked(f, pop_call, body):
+    """A loop `while let Some(x) = stack.pop() { .. stack.push(child) .. }` terminates only if an element is expanded a
+    bounded number of times: every path from the pop to a push onto the same collection passes a *mark* - an insert into
+    a set / map (`visited.insert(x)`) or a write to an indexed status slot (`status[i] = InProgress`)."""
+    def collection_of(op):
+        """The local holding the collection that a `&mut coll` operand refers to."""
+        l = op_local(op)
+        for _ in range(6):
+            if l is None:
+                return None
+            d = f.single_def(l)
+            if d and d[0] == "stmt" and d[3][0] == "ref":
+                l = place_local(d[3][1])
+                continue
+            if d and d[0] == "stmt" and d[3][0] in ("use", "cast"):
+                o = d[3][1] if d[3][0] == "use" else d[3][2]
+                nl = op_local(o)
+                if nl is None or nl == l:
+                    return l
+                l = nl
+                continue
+            return l
+        return l
+    wl = collection_of(pop_call.args[0]) if pop_call.args else None
+
+    def on_worklist(c):
+        return bool(c.args) and wl is not None and collection_of(c.args[0]) == wl
+    pushes = [c for c in f.calls() if c.bb in body and c.name() in ("push", "push_back", "push_front", "extend", "append", "extend_from_slice") and on_worklist(c)]
+    if not pushes:
+        return True
+    marks = set()
+    for c in f.calls():
+        if c.bb in body and c.name() in ("insert", "replace", "entry") and c.args and not on_worklist(c):
+            ty = f.local_ty(op_local(c.args[0])) or ""
+            if "Set" in ty or "Map" in ty or "set::" in ty or "map::" in ty:
+                marks.add(c.bb)
+    for i, _, st in f.stmts():
+        if i in body and st[0] == "a" and not isinstance(st[1], int) and any(isinstance(e, list) and e[0] in ("i", "ci") for e in st[1][1]):
+            marks.add(i)
+    return all(f.must_pass(pop_call.bb, {c.bb}, marks) or c.bb in marks for c in pushes)
 
 
 def _lower_bound_before(g, call, arg_index):
@@ -648,9 +693,12 @@ def _loops(ctx, F, reach):
             row = table.get(key)
             line = f.blocks[h]["s"][0][3] if f.blocks[h]["s"] and len(f.blocks[h]["s"][0]) > 3 else f.line
             if row is None:
+                is_wl = any(c.bb in body and c.name().startswith("pop") for c in f.calls())
                 ctx.ob("R14.5", "loop:%s#%d" % key, False,
-                       "a loop on the untrusted-Sierra path is neither iterator / worklist driven nor a growing-length counter and has no recorded "
-                       "termination argument", f.where(line))
+                       ("a worklist loop on the untrusted-Sierra path pushes onto the collection it pops from on a path that marks nothing (no insert into a "
+                        "visited set, no status write): an element that reaches itself is expanded forever" if is_wl else
+                        "a loop on the untrusted-Sierra path is neither iterator / worklist driven nor a growing-length counter and has no recorded "
+                        "termination argument"), f.where(line))
                 continue
             used.add(key)
             kind, need, reason = row
@@ -672,6 +720,63 @@ def _loops(ctx, F, reach):
         ctx.ob("R14.5", "loop:%s#%d|stale" % key, True, "recorded loop no longer on the untrusted path (row can be removed)", LOOP_TABLE)
     ctx.floor("loops on the untrusted-Sierra path", n_loops, 100)
     ctx.notes.append("R14.5: %d loops on the untrusted path, %d not iterator / counter driven" % (n_loops, n_other))
+
+
+VALIDATOR_TABLE = os.path.join(os.path.dirname(__file__), "..", "tables", "c14_validators.tsv")
+VALIDATOR_NAME = re.compile(r"^(validate|check|verify|ensure|assert_valid|test_\w*consistency)(_|$)")
+
+
+def _validator_calls(ctx, F, reach):
+    """R14.6: the calls of validation routines on the untrusted path do not disappear.  The panic-capable sites further
+    down (variant extraction, indexing, zip_eq, arithmetic) are safe only for data that earlier validation let through;
+    a removed `validate_x(..)?` leaves every site it protected exposed without a single new panicking construct.  The
+    multiset of (crate of the caller, validator) call sites is compared with the recorded one; moves inside a crate are
+    not a loss."""
+    cur = Counter()
+    where = {}
+    for p in reach:
+        f = F.fns[p]
+        if not f.body:
+            continue
+        for c in f.calls():
+            nm = c.name()
+            if not VALIDATOR_NAME.match(nm):
+                continue
+            g = F.fns.get(c.path)
+            if g is None or not g.crate.startswith("cairo_lang"):
+                continue
+            rty = g.local_ty(0) or ""
+            if not (rty.startswith("core::result::Result") or rty.startswith("core::option::Option") or rty == "bool"):
+                continue
+            key = (crate_of(fn_key(p)), "::".join(strip_generics(c.path).split("::")[-2:]))
+            cur[key] += 1
+            where.setdefault(key, c.where())
+    if os.environ.get("VERIF_C14_WRITE_BASELINE"):
+        with open(VALIDATOR_TABLE, "w") as fh:
+            fh.write("# C14 R14.6: call sites of validation routines in code reachable from the untrusted-Sierra entry points\n# crate of the caller <TAB> validator <TAB> call sites\n")
+            for (cr, v), n in sorted(cur.items()):
+                fh.write("%s\t%s\t%d\n" % (cr, v, n))
+    base = {}
+    if os.path.exists(VALIDATOR_TABLE):
+        for line in open(VALIDATOR_TABLE):
+            if line.strip() and not line.startswith("#"):
+                cr, v, n = line.rstrip("\n").split("\t")
+                base[(cr, v)] = int(n)
+    lost = []
+    for key, n in sorted(base.items()):
+        if cur.get(key, 0) < n:
+            # the validator may have been renamed or moved: another validator of the same crate gained as many calls
+            lost.append((key, n, cur.get(key, 0)))
+    gained = sum(max(0, cur[k] - base.get(k, 0)) for k in cur)
+    for key, n, have in lost:
+        explained = gained >= (n - have) and len(lost) == 1 and any(k[0] == key[0] and cur[k] > base.get(k, 0) for k in cur)
+        ctx.ob("R14.6", "validator:%s|%s" % key, explained,
+               "%d call(s) of %s left %s while another validator of the crate gained as many: renamed or moved" % (n - have, key[1], key[0]) if explained else
+               "%s was called %d time(s) from %s on the untrusted path and is now called %d time(s): the data it rejected reaches the code behind it" % (
+                   key[1], n, key[0], have), "")
+    ctx.ob("R14.6", "validator-calls", not [1 for k, n, h in lost], "%d call sites of %d validation routines on the untrusted path; none disappeared" % (
+        sum(cur.values()), len(cur)) if not lost else "%d validator call site(s) disappeared" % len(lost), "")
+    ctx.floor("validator call sites on the untrusted path", sum(cur.values()), 20)
 
 
 def _controls(ctx, F, wrappers):
